@@ -62,10 +62,12 @@ def lean_stage(V, modules, props_relpath, extra_theorem_files=()):
     proved = 0
     ax_bad = {}
     if ok:
-        # audit every theorem of the property file(s); the module to import is derived from the path
-        mod = props_relpath[:-5].replace("/", ".")
-        res = common.print_axioms(mod, thms)
-        axs, missing, txt = res
+        # audit every theorem of the property file(s); the module to import is derived from each file's path
+        axs = {}
+        for rel in [props_relpath] + list(extra_theorem_files):
+            names = common.theorems_in(rel)
+            a_, missing, txt = common.print_axioms(rel[:-5].replace("/", "."), names)
+            axs.update(a_)
         for n in thms:
             a = axs.get(n)
             if a is None:
